@@ -1,6 +1,7 @@
 from amaranth import *
 from amaranth.utils import *
 import amaranth.lib.memory as memory
+from amaranth.lib.data import ArrayLayout
 from amaranth.hdl import AlreadyElaborated
 
 from typing import Optional, Any, final
@@ -50,6 +51,9 @@ class WritePort:
         self.src_loc = get_src_loc(src_loc)
 
         shape = memory.shape
+        if isinstance(memory.row_shape, ArrayLayout) and isinstance(granularity, int):
+            # as in amaranth.lib.memory, the granularity of an array-shaped row is counted in elements
+            granularity *= Shape.cast(memory.row_shape.elem_shape).width
         if granularity is None:
             en_width = 1
         elif not isinstance(granularity, int) or granularity <= 0:
@@ -92,6 +96,7 @@ class BaseMultiportMemory(Elaboratable):
             How many stack frames deep the source location is taken from.
         """
 
+        self.row_shape = shape
         self.shape = Shape.cast(shape)
         self.depth = depth
         self.init = init
